@@ -312,3 +312,42 @@ PROPS['C09'] = {
 MANIFEST_TEXT['C09'] = {'claim': 'generated load histories on several OS threads with every kernel refusal mode (EINVAL oversize / unknown flag bits, EACCES, refused thread-sync reported as a positive return value) and pre-kernel failures; invariants over per-thread /proc status and probe vectors after every step',
                         'note': 'real kernel as ground truth; refusal modes are provoked through process state, each in its own child',
                         'technique': 'property-based testing (rapid) of operation histories with invariants checked after every step; fault classes enumerated'}
+
+PROPS['C10'] = {
+    'level': 'exploration',
+    'rule': ('cases = thread plans for one fresh child each: N in 1..64 pre-existing locked OS threads, each in a generated state while the load runs (spinning, in nanosleep, blocked in read(2) on a pipe, '
+             'in a futex wait, creating and destroying threads), GOMAXPROCS in {1,2,4,16}, a delay before the load, flags 0..3, no_new_privs; after LoadFilter returned the loader releases the threads; every '
+             'thread then issues a probe and reads its own status, threads created afterwards do the same; oracle: thread-sync + nil => every pre-existing, every later and every runtime thread has Seccomp 2 and '
+             'its probe is denied; no thread-sync => loader filtered, every pre-existing thread untouched; flags word at the syscall wrapper (and under strace for 10%) == requested; a plan is non-trivial iff '
+             'N >= 2, at least two different states are present and at least one thread was inside a system call; distinct by hash of the case JSON'),
+    'assumptions': _KERNEL_ASSUMPTIONS + ['schedules are sampled by perturbation (thread states, GOMAXPROCS, delays), not enumerated: the harness does not own the kernel scheduler'],
+    'required_classes': {'all': ['flag:0', 'flag:1', 'flag:2', 'flag:3', 'state:spin', 'state:nanosleep', 'state:read', 'state:futex', 'state:spawner', 'thread-created-after-load',
+                                 'threads>=25', 'strace-flags-word'],
+                         'thorough': ['threads:64']},
+    'units': [
+        {'test': 'TestC10ThreadSync', 'checks': {'quick': 160, 'thorough': 8000}, 'shards': {'quick': 8, 'thorough': 16}, 'helpers': _KCHILD,
+         'timeout': {'quick': 500, 'thorough': 3300}},
+    ],
+}
+MANIFEST_TEXT['C10'] = {'claim': 'generated thread populations (1..64 threads in five kinds of state, several GOMAXPROCS values and delays) around one LoadFilter call per fresh child; behavioural check on every thread after the load returned plus the flags word at the syscall boundary',
+                        'note': 'interleavings are sampled by perturbation, not enumerated; the invariant is checked on every thread of every sampled run',
+                        'technique': 'property-based testing (rapid) over schedule perturbations with a per-thread invariant; strace cross-check of the flags word'}
+
+PROPS['C11'] = {
+    'level': 'exploration',
+    'rule': ('cases = {uid 0, uid 65534} x no_new_privs x flags 0..3 x a perturbation executed inside the schedule point between the prctl and the seccomp call (Gosched xk, sleep, blocking system calls) '
+             'with 0..32 spinning goroutines and GOMAXPROCS in {1,2,4}, caller unlocked or already locked to its thread, one fresh child each; hooks record thread id and no_new_privs at the schedule point and '
+             'immediately before seccomp(2); a control goroutine performs the same perturbation unpinned and reports whether it migrated; oracle: requested => load returns nil (also unprivileged), bit set on the '
+             'installing thread at install time, same thread as the prctl; not requested => no thread\'s bit changes, unprivileged load fails and installs nothing, privileged load succeeds; strace (10%): '
+             'prctl then seccomp with the same tid; a case is non-trivial iff unprivileged, requested and the control goroutine migrated under the same perturbation; distinct by hash of the case JSON'),
+    'assumptions': _KERNEL_ASSUMPTIONS + ['the decisive goroutine schedule is forced through the schedule-point hook; other schedules are not enumerated'],
+    'required_classes': {'all': ['uid:%d/nnp:%s' % (u, n) for u in (0, 65534) for n in ('true', 'false')] +
+                         ['unprivileged+nnp+migrating-perturbation', 'unprivileged-load-refused', 'control-goroutine-migrated', 'strace-order-and-thread']},
+    'units': [
+        {'test': 'TestC11NoNewPrivs', 'checks': {'quick': 240, 'thorough': 12000}, 'shards': {'quick': 8, 'thorough': 16}, 'helpers': _KCHILD,
+         'timeout': {'quick': 500, 'thorough': 3300}},
+    ],
+}
+MANIFEST_TEXT['C11'] = {'claim': 'privileged/unprivileged x requested/not x flags x generated perturbations forced at a schedule point between prctl and seccomp; the installing thread must carry the bit at install time and be the thread that set it; unprivileged loads with the bit requested must always succeed',
+                        'note': 'the migration-inducing schedule is forced through the hook and its strength measured on a control goroutine in the same child',
+                        'technique': 'property-based testing (rapid) with schedule-point fault injection; strace cross-check of call order and thread'}
